@@ -6,6 +6,8 @@ commands – and (b) a replay of the stored commands alone; this is the statemen
 `history <ca>` must list exactly the commands stored for the current incarnation of the CA
 (`KM.Props.C07` history agreement; the init command has version 0 and is not listed). -/
 import KrillModel.Drivers.Json
+import KrillModel.Generated.CommandKinds
+import KrillModel.ES.CommandCoverage
 namespace KM.Drv.SysReload
 open KM.Drv Lean
 
@@ -28,6 +30,17 @@ def step (st : St) (ws : List String) (j : Json) : St × String :=
   let st' : St := { vers }
   if ret.startsWith "PANIC" then (st', "FAIL oracle replay_never_panics") else
   match ws with
+  | "serde" :: _ => (st', "ok trivial:serde")
+  | "sreload" :: _ =>
+    -- an offline signer (krillta): the next invocation's store object, and a replay of a copy of its commands
+    if ret.startsWith "ok:same" then (st', "ok sreload:all-commands")
+    else if ret.startsWith "ok:diff" then
+      let routes := ((ret.splitOn ";").filterMap fun d => match d.splitOn ":" with
+        | _ :: _ :: _ :: route :: _ => some route
+        | [_, route, _] => some route
+        | _ => none).eraseDups
+      (st', s!"FAIL oracle replay_eq_live offline-signer routes={routes} {ret.take 300}")
+    else (st', s!"ok trivial:sreload-{ret.take 20}")
   | "reloadcheck" :: rest =>
     let kind := if rest.isEmpty then "older-snapshot" else "fresh-snapshot"
     if ret.startsWith "ok:same" then (st', s!"ok reloadcheck:{kind}")
@@ -47,8 +60,104 @@ def step (st : St) (ws : List String) (j : Json) : St × String :=
     | _ => (st', s!"ok trivial:history-{ret.take 20}")
   | _ => (st', s!"ok trivial:{op}")
 
+/-! ## Coverage of the stored command kinds (C06, `ES/CommandCoverage.lean`)
+
+With `KVERIF_C06_COVER=tags` the driver prints, per trace line, which stored command kinds (and in
+which shapes) the `stored` / `stored_boot` observation of that line shows:
+`ok cover <Aggregate>/<Variant>/<shape>@<op> …` (`-` = the variant itself; `ev:<Aggregate>/<Variant>`
+for event kinds).  With `KVERIF_C06_COVER=claims` it prints the claims of the coverage table and the
+rows that are not executed, and reads nothing.  `checks/C06.py` compares the two. -/
+
+open KM.Gen.CommandKinds in
+def normName (s : String) : String :=
+  String.ofList ((s.toList.filter (· != '_')).map Char.toLower)
+
+open KM.Gen.CommandKinds in
+/-- The variant a stored JSON value is, and its payload: internally tagged enums (`tag="type"`) carry
+the name under `type`, the others are serde's default `"Variant"` / `{"Variant": payload}`. -/
+def variantOf (ks : List Kind) (d : Json) : Option (Kind × Json) :=
+  let tagged := ks.any fun k => k.enumAttrs.any (·.startsWith "tag=")
+  let (name, payload) :=
+    if tagged then (jstr (jget d "type"), d)
+    else match d with
+      | .str s => (s, Json.null)
+      | _ => jvariant d
+  (ks.find? fun k => normName k.variant == normName name).map (·, payload)
+
+/-- The JSON value at a dotted field path of a variant. -/
+def fieldAt (form : String) (payload : Json) (path : String) : Option Json :=
+  let comps := path.splitOn "."
+  let rec go (j : Json) : List String → Option Json
+    | [] => some j
+    | c :: cs => match j with
+      | .obj _ => match j.getObjVal? c with
+        | .ok v => go v cs
+        | .error _ => none
+      | .arr a => match c.toNat? with
+        | some i => match a[i]? with | some v => go v cs | none => none
+        | none => none
+      | _ => none
+  match comps with
+  | [] => some payload
+  | c :: cs =>
+    if form == "newtype" && c == "0" then go payload cs
+    else go payload (c :: cs)
+
+open KM.Gen.CommandKinds in
+def shapeOf (f : Field) (v : Option Json) : Option String :=
+  if f.shape == "opt" then
+    some (match v with | none => "none" | some .null => "none" | some _ => "some")
+  else if f.shape == "coll" then
+    some (match v with
+      | none => "empty" | some .null => "empty"
+      | some (.arr a) => if a.isEmpty then "empty" else "nonempty"
+      | some (.obj kvs) => if kvs.isEmpty then "empty" else "nonempty"
+      | some _ => "nonempty")
+  else none
+
+open KM.Gen.CommandKinds in
+/-- Tags of one stored value of aggregate `agg` in role `role` (`command` / `change` from `commandKinds`, events from `eventKinds`). -/
+def tagsOf (table : List Kind) (pre : String) (agg : String) (roles : List String) (d : Json) (withShapes : Bool) : List String :=
+  let ks := table.filter fun k => k.agg == agg && roles.contains k.role
+  match variantOf ks d with
+  | none => [s!"{pre}{agg}/?{(toString d).take 40}"]
+  | some (k, payload) =>
+    let base := s!"{pre}{agg}/{k.variant}"
+    if !withShapes then [base] else
+    (base ++ "/-") :: k.fields.filterMap fun f =>
+      (shapeOf f (fieldAt k.form payload f.name)).map fun sh => s!"{base}/{f.name}={sh}"
+
+open KM.Gen.CommandKinds in
+def coverStep (_ : Unit) (ws : List String) (j : Json) : Unit × String :=
+  let op := ws.headD "?"
+  let one (opname : String) (c : Json) : List String :=
+    let agg := jstr (jget c "agg")
+    if jstr (jget c "role") == "change" then
+      (jarr (jget c "ch")).flatMap fun d => (tagsOf commandKinds "" agg ["change"] d true).map (· ++ "@" ++ opname)
+    else
+      let cmd := (tagsOf commandKinds "" agg ["command"] (jget c "d") true).map (· ++ "@" ++ opname)
+      let evs := (jarr (jget c "ev")).flatMap fun d => tagsOf eventKinds "ev:" agg ["event"] d false
+      let ini := if jisNull (jget c "init") then [] else [s!"ev:{agg}/(init)"]
+      cmd ++ evs ++ ini
+  let tags := (jarr (jget j "stored_boot")).flatMap (one "(boot)") ++ (jarr (jget j "stored")).flatMap (one op)
+  ((), "ok cover " ++ " ".intercalate tags.eraseDups)
+
+def printClaims : IO Unit := do
+  for (stream, agg, variant, shape, op) in KM.ES.CommandCoverage.claims do
+    IO.println s!"claim {stream} {agg}/{variant}/{shape}@{op}"
+  for r in KM.ES.CommandCoverage.coverage do
+    match r.status with
+    | .notExecuted reason why => IO.println s!"uncovered {r.agg}/{r.variant} {KM.ES.CommandCoverage.reasonName reason} {why}"
+    | .covered via _ excused =>
+      IO.println s!"via {r.agg}/{r.variant} {KM.ES.CommandCoverage.viaName via}"
+      for (a, why) in excused do
+        IO.println s!"excused {r.agg}/{r.variant}/{a} {why}"
+
 def main : IO Unit := do
   let stdin ← IO.getStdin
-  jloop stdin ({} : St) step {}
+  match (← IO.getEnv "KVERIF_C06_COVER") with
+  | some "claims" => printClaims
+  | some "tags" => jloop stdin () coverStep ()
+  | _ => jloop stdin ({} : St) step {}
 
 end KM.Drv.SysReload
